@@ -4,7 +4,7 @@ from vlib.runner import Obl
 PROPERTY = "C04"
 EXPLANATION = (
     "C04 (manifest matches content), manifest half: the real Manifest methods and Document._add_binary_part / del_part on the lxml model with a dict-backed container; "
-    "a history of three operations (add a binary part, delete a part, add a path directly, change a media type) addressing one of two file names is chosen by the solver; "
+    "a history of three operations (add a binary part, delete a part, add a path directly, change a media type, delete a part stored at the root of the package) addressing one of two file names is chosen by the solver; "
     "after every step - and in a clone taken at the end - each present file is listed exactly once, nothing absent is listed and the root entry carries the document's media type. "
 )
 OUTSIDE = ("the zip layer: 'mimetype' first and stored uncompressed, duplicate zip entry names, templates, clone, merge_styles_from (zipfile/filesystem I/O, not encodable - checked concretely in "
@@ -17,12 +17,12 @@ _STUB = ["/verif/shadow/lxml (symdom)", "memdoc.MemContainer: dict-backed subcla
 OBLIGATIONS = [
     Obl(name=f"manifest_history_op{_a}{_b}", module="h_manifest", func="manifest_history3", shadow=True, timeout=600, env={"VERIF_OP1": str(_a), "VERIF_OP2": str(_b)},
         extra={"op1": _a, "op2": _b}, replay="r_h_manifest:manifest_history3", weight=60,
-        bounds=f"3 steps then a clone: operation kinds {_a} (on file 0; the two names are symmetric) then {_b}, then a symbolic operation (4 kinds); files of steps 2-3 symbolic (2 names)",
-        encodes=_ENC + ["src/odfdo/document.py:Document.clone", "src/odfdo/container.py:Container.clone (in-memory branch)"], stubs=_STUB) for _a in range(4) for _b in range(4)
+        bounds=f"3 steps then a clone: operation kinds {_a} (on file 0; the two names are symmetric) then {_b}, then a symbolic operation (5 kinds); files of steps 2-3 symbolic (2 names)",
+        encodes=_ENC + ["src/odfdo/document.py:Document.clone", "src/odfdo/container.py:Container.clone (in-memory branch)"], stubs=_STUB) for _a in range(5) for _b in range(5)
 ]
 OBLIGATIONS += [
     Obl(name=f"manifest_history4_op{_a}{_b}", module="h_manifest", func="manifest_history4", shadow=True, timeout=1500, tier="thorough",
         env={"VERIF_OP1": str(_a), "VERIF_OP2": str(_b)}, extra={"op1": _a, "op2": _b}, replay="r_h_manifest:manifest_history4", weight=300,
-        bounds=f"4 steps: operation kinds {_a} (on file 0) then {_b}, then two symbolic operations (4 kinds); files of steps 2-4 symbolic (2 names)",
-        encodes=_ENC, stubs=_STUB) for _a in range(4) for _b in range(4)
+        bounds=f"4 steps: operation kinds {_a} (on file 0) then {_b}, then two symbolic operations (5 kinds); files of steps 2-4 symbolic (2 names)",
+        encodes=_ENC, stubs=_STUB) for _a in range(5) for _b in range(5)
 ]
